@@ -257,7 +257,9 @@ func (c *control) readDir() {
 			c.dirPage(colon, at, params)
 			return
 		case '^':
+			// Nothing after the directive is processed.
 			c.stop = true
+			c.pos = c.end
 			return
 		case '~':
 			c.dirTilde(colon, at, params)
